@@ -1187,24 +1187,24 @@ func (vc *VC) execInstr(fr *Frame, ins ssa.Instruction, st *State) {
 	case *ssa.Store:
 		a := vc.value(fr, ins.Addr)
 		v := vc.value(fr, ins.Val)
+		vc.guardCheck(fr, st, ins.Addr, true, pos)
 		if a.K != KPtr || a.L == nil {
 			vc.unsupported("%s: store through unsupported pointer (%s)", funcKey(fn), a.Why)
 			vc.havocAllHeap(st)
 			return
 		}
 		vc.nilCheck(st, a.L, pos, vc.srcText(fn, ins))
-		vc.lockCheck(fr, st, a.L, true, pos)
 		vc.storeTo(st, a.L, v)
 	case *ssa.UnOp:
 		x := vc.value(fr, ins.X)
 		switch ins.Op {
 		case token.MUL:
+			vc.guardCheck(fr, st, ins.X, guardedMapWrite(ins), pos)
 			if x.K != KPtr || x.L == nil {
 				fr.regs[ins] = bad(ins.Type(), "load through unsupported pointer: "+x.Why)
 				return
 			}
 			vc.nilCheck(st, x.L, pos, vc.srcText(fn, ins))
-			vc.lockCheck(fr, st, x.L, false, pos)
 			v := vc.load(st, x.L)
 			if x.L.Kind != locCell {
 				vc.assume(st, vc.wf(st, v))
@@ -1776,6 +1776,31 @@ func (vc *VC) anchorInBlocks(match string, blocks map[*ssa.BasicBlock]bool, dept
 						return true
 					}
 				}
+			}
+		}
+	}
+	return false
+}
+
+// guardedMapWrite: the loaded value is a map that is updated or deleted from (a write to the
+// structure the field holds, although the field itself is only read).
+func guardedMapWrite(ld *ssa.UnOp) bool {
+	if _, isMap := ld.Type().Underlying().(*types.Map); !isMap {
+		return false
+	}
+	refs := ld.Referrers()
+	if refs == nil {
+		return false
+	}
+	for _, r := range *refs {
+		switch r := r.(type) {
+		case *ssa.MapUpdate:
+			if r.Map == ld {
+				return true
+			}
+		case *ssa.Call:
+			if b, ok := r.Call.Value.(*ssa.Builtin); ok && (b.Name() == "delete" || b.Name() == "clear") && len(r.Call.Args) > 0 && r.Call.Args[0] == ld {
+				return true
 			}
 		}
 	}
